@@ -78,3 +78,53 @@ contract(
     ],
     canaries=[("'!L' if asn4 else '!H'", "'!H' if asn4 else '!L'")],
 )
+
+# ---------------------------------------------------------------------------------------------- CIDR (RFC 4271 4.3 <length, prefix>)
+CI = 'bgp/message/update/nlri/cidr.py'
+
+
+def _size(it, args, kwargs, fr, node):
+    # CIDR.size(mask) is a table lookup (_mask_to_bytes, filled at import): by assumed contract here -- ceil(mask / 8) for
+    # 0..128, 0 outside -- and checked EXHAUSTIVELY against the real function by bounded check C15 cidr-size-table
+    m = to_z3(args[-1])
+    return z3.If(z3.And(m >= 0, m <= 128), (m + 7) / 8, z3.IntVal(0))
+
+
+def _iplen(it, args, kwargs, fr, node):
+    a = to_z3(args[0])
+    return z3.If(a == 1, z3.IntVal(4), z3.IntVal(16))
+
+
+contract(
+    CI,
+    'CIDR.decode',
+    props=('C15', 'C01', 'C02'),
+    params={'afi': int_(1, 2), 'bgp': bytes_(0, 64)},
+    callees={'CIDR.size': _size, 'IP.length': _iplen},
+    raises=[{'exc': 'Notify', 'iff': 'len(bgp) == 0 or bgp[0] > (32 if afi == 1 else 128) or len(bgp) < 1 + (bgp[0] + 7) // 8'}],
+    ensures=[
+        # the mask is the first octet, the prefix is the next ceil(mask/8) octets, zero padded to the family's length
+        'result[1] == bgp[0]',
+        'len(result[0]) == (4 if afi == 1 else 16)',
+        'result[0][: (bgp[0] + 7) // 8] == bgp[1 : 1 + (bgp[0] + 7) // 8]',
+        'forall(lambda i: result[0][i] == 0, (bgp[0] + 7) // 8, (4 if afi == 1 else 16))',
+    ],
+    canaries=[('if len(bgp) < size + 1:', 'if len(bgp) < size:'), ('mask = bgp[0]', 'mask = bgp[0] + 1')],
+)
+
+contract(
+    CI,
+    'CIDR.pack_nlri',
+    props=('C15', 'C01'),
+    params={'self': obj(None, _mask=int_(0, 128), _packed=bytes_(0, 16), mask=int_(0, 128))},
+    requires=['self.mask == self._mask', '(self._mask + 7) // 8 <= len(self._packed)'],
+    callees={'CIDR.size': _size},
+    ensures=[
+        # <length, prefix>: the mask octet, then exactly ceil(mask/8) octets of the stored prefix.
+        # With decode's postcondition: pack_nlri(decode(afi, b)) == b[: 1 + ceil(b[0]/8)]  (the round trip, by substitution)
+        'len(result) == 1 + (self._mask + 7) // 8',
+        'result[0] == self._mask',
+        'result[1:] == self._packed[: (self._mask + 7) // 8]',
+    ],
+    canaries=[('bytes([self.mask]) + bytes(self._packed[: CIDR.size(self.mask)])', 'bytes([self.mask]) + bytes(self._packed[: CIDR.size(self.mask) + 1])')],
+)
